@@ -247,8 +247,9 @@ def handle (toks : List String) : Option String :=
     some s!"archive={digest arch}"
   -- clone <opts: s?v?b?|-> <pin hex|-> <archive hex> <prior hex> <seeds hex,hex|-> <decomp table hexstored:hexraw,..|->
   | [cmd, o, pin, arch, prior, seeds, table] => do
-    if cmd ≠ "clone" ∧ cmd ≠ "clone-ro" then none
+    if cmd ≠ "clone" ∧ cmd ≠ "clone-ro" ∧ cmd ≠ "clone-rf" then none
     let short := cmd = "clone-ro"     -- result and output only
+    let noWrites := cmd = "clone-rf"  -- result, output and fetch list
     let opts : CloneOpts := { seedOutput := o.contains 's', verifyOutput := o.contains 'v', blockDev := o.contains 'b'
                               headerPin := ← (if pin = "-" then some none else if pin = "e" then some (some []) else (parseHex pin).map some) }
     let archive ← parseHex arch
@@ -266,7 +267,7 @@ def handle (toks : List String) : Option String :=
     let fetch := r.requests.filterMap fun q => match q with
       | .readChunks rs => some (joinWith "," (rs.map fun (o, s) => s!"{o}:{s}"))
       | _ => none
-    some s!"result={res} out={digest r.output}{if short then "" else s!" writes={joinWith "," ((Spec.writesOf r.log).map fun (o, d) => s!"{o}.{digest d}")} fetch={joinWith "|" fetch}"}"
+    some s!"result={res} out={digest r.output}{if short then "" else if noWrites then s!" fetch={joinWith "|" fetch}" else s!" writes={joinWith "," ((Spec.writesOf r.log).map fun (o, d) => s!"{o}.{digest d}")} fetch={joinWith "|" fetch}"}"
   -- plan-safe <sizes> <O ids> <N ids> <ops> : is this op list (the implementation's) a safe plan
   -- in the sense of Spec.InPlace.safePlan?
   | ["plan-safe", sizes, o, n, ops] => do
